@@ -387,7 +387,21 @@ impl Server for Unreal2Server {
         self.attempts[k] += 1;
         match self.outcomes[k].get(n).copied().unwrap_or(Outcome::Valid) {
             Outcome::Silent => {}
-            Outcome::Malformed => cx.udp_send(from, vec![0x80, 0, 0]),
+            Outcome::Malformed => {
+                if cx.draw(2) == 0 {
+                    cx.udp_send(from, vec![0x80, 0, 0]);
+                } else {
+                    // a complete valid datagram - of another packet type
+                    let mut d = match k {
+                        0 => self.players.first().cloned().unwrap_or_else(|| vec![0x80, 0, 0, 0, 2]),
+                        _ => self.info.clone(),
+                    };
+                    if d.len() > 4 && d[4] == k as u8 {
+                        d[4] = (k as u8 + 1) % 3;
+                    }
+                    cx.udp_send(from, d);
+                }
+            }
             Outcome::Valid => {
                 let frags: Vec<Vec<u8>> = match k {
                     0 => vec![self.info.clone()],
